@@ -267,6 +267,11 @@ def proof_counterexample(proof):
         m = re.search(r"^CEX (.*)$", out, re.M)
         if m:
             return "gen_overlaps_eq_ov: " + m.group(1)
+    if "ValidateGen" in text:
+        rc, out = run(["lake", "env", "lean", "--run", "Cex/ValidateCex.lean"], cwd=LEAN)
+        m = re.search(r"^CEX (.*)$", out, re.M)
+        if m:
+            return "ValidateGen: " + m.group(1)
     if "FiltersGen" in text:
         rc, out = run(["lake", "env", "lean", "--run", "Cex/FiltersCex.lean"], cwd=LEAN)
         m = re.search(r"^CEX (.*)$", out, re.M)
